@@ -10,7 +10,7 @@ CHECKS = {
          "Small-scope hypothesis on tree size; the reference evaluator is the documented semantics; value alphabets {true,false},{0,1} plus sentinel failures.", "4 C01"),
  "C06": ("exhaustive enumeration of source texts (token sequences, character strings, mutations of valid programs) executed on the real Compile/Eval/TryEval/Dump/DumpTable under a panic fence and hang watchdog",
          "Every token sequence <=5 (thorough 6) over 22 tokens, focused alphabets up to 7 (8) tokens and every character string <=5 (7) over 18 characters x {prefix,infix} x {undefined variables off,on}, every truncation/deletion/duplication/swap of every valid corpus program, scaled shapes; every text that compiles is dumped and evaluated (Eval, TryEval cached/uncached) under bindings of every supported type in all event modes; oracle: no panic, one of (program,error), LOOP positions strictly increase.",
-         "Texts longer than the bounds are covered only through mutations of valid programs and a handful of scaled shapes; hangs are caught by a 180 s no-progress watchdog.", "4 C06"),
+         "Texts longer than the bounds are covered only through mutations of valid programs and a handful of scaled shapes; hangs are caught by a 300 s (thorough: 900 s) no-progress watchdog.", "4 C06"),
  "C02": ("stateless exhaustive exploration of programs x all 16 optimisation subsets x cost maps x directive spellings x bindings on the real compiler/evaluator, cross-configuration and reference (R1/R3) agreement",
          "Every CORE <=7 / RICH <=6 program (thorough 7/7) incl. alias spellings, repeated-variable variants and extras under the 16 subsets x events off/on and in undefined-variable mode, 8 extreme cost maps on the Reordering subsets and 5 in-source directive spellings per subset (Dump+DumpTable must equal the programmatic compilation, caller options untouched), evaluated under every value binding: all value-returning configurations agree; total-evaluation success forces that value everywhere; Reordering-off configurations return the left-to-right value whenever it exists.",
          "Small-scope hypothesis; cost maps from a fixed family of extreme maps; bindings over {true,false},{0,1}.", "4 C02"),
